@@ -344,6 +344,11 @@ func (m *Machine) callFn(caller *frame, fn *ssa.Function, args []Value, env []Va
 	if fn.Name() == "init" && fn.Pkg != nil && !isRepoPkg(fn.Pkg) && fn.Signature.Recv() == nil {
 		return nil // dependency package initialisers are not run
 	}
+	if fn.Pkg != nil && fn.Pkg.Pkg.Path() == "regexp" {
+		if v, ok := m.nativeRegexpCall(fn, args); ok {
+			return v
+		}
+	}
 	if fn.Blocks == nil {
 		unsupported("external function %s", name)
 	}
